@@ -260,6 +260,8 @@ class Exec(Engine):
         if type(v).__name__ == 'VEmptySet' and key == 'Set[Ty]':
             from .plug_types import EMPTY_SET
             return VTySet(EMPTY_SET)
+        if type(v).__name__ == 'VEmptySet' and key == 'Set[str]':
+            return VSetStr(z3.K(so.S, z3.BoolVal(False)))
         return v
 
     def unpack(self, target, v, st):
